@@ -268,6 +268,181 @@ def overloadOf (tys : List (Option Ty)) : Overload :=
   else if tys.any tyIsList then .list
   else .bad
 
+/-- the comparator text of `visit_Compare`: `eq/ne null` become `IS [NOT]` -/
+def cmpPieces (op : CmpOp) (r : Expr) : List Piece :=
+  if isNullLit r && op == .eq then [w "IS"]
+  else if isNullLit r && op == .ne then [w "IS", sp, w "NOT"]
+  else cmpSym op
+
+/-- `visit_BoolOp`: a boolean sub-expression on the left is wrapped unless it has the same operator … -/
+def boolWrapL (op : BoolOp) (l : Expr) (ls : List Piece) : List Piece :=
+  match isBoolOp l with
+  | some lo => if lo != op then parenP ls else ls
+  | none => ls
+/-- … one on the right always -/
+def boolWrapR (r : Expr) (rs : List Piece) : List Piece :=
+  if (isBoolOp r).isSome then parenP rs else rs
+
+/-- `_to_pattern(arg, prefix, suffix)`; `argPs` is the text `self.visit(arg)` produces -/
+def sqlPattern (arg : Expr) (argPs : List Piece) (pre suf : Str) : List Piece :=
+  match arg with
+  | .lit .str raw =>
+      let esc := likeEscape raw
+      let lit : Piece := .tok (.str (pre ++ esc ++ suf))
+      if esc != raw then [lit, sp, w "ESCAPE", sp, .tok (.str ['\\'])] else [lit]
+  | _ =>
+      let res := wrapOperand arg 5 true argPs
+      let res := if pre.isEmpty then res else .tok (.str pre) :: sp :: o "||" :: sp :: res
+      if suf.isEmpty then res else res ++ [sp, o "||", sp, .tok (.str suf)]
+
+/-! ### function templates
+
+Every `sqlfunc_*` handler first renders all its arguments (`self.visit(arg)`), then decides — from the
+argument count and the inferred argument types only — which f-string to fill in.  The model keeps that
+shape: `selectTpl` picks a template (a list of `TItem`s), `instantiate` fills in the rendered arguments. -/
+inductive TItem
+  | p (x : Piece)                                -- literal text of the f-string
+  | arg (i : Nat)                                -- `{args_sql[i]}`
+  | argW (i : Nat) (parent : Nat) (orEq : Bool)  -- `self._visit_operand(args[i], parent, or_equal)`
+  | pat (i : Nat) (pre suf : Str)                -- `self._to_pattern(args[i], pre, suf)`
+  deriving DecidableEq, Repr
+
+def dummyExpr : Expr := .lit .null []
+
+def instItem (args : List Expr) (items : List (List Piece)) : TItem → List Piece
+  | .p x => [x]
+  | .arg i => items.getD i []
+  | .argW i pr oe => wrapOperand (args.getD i dummyExpr) pr oe (items.getD i [])
+  | .pat i pre suf => sqlPattern (args.getD i dummyExpr) (items.getD i []) pre suf
+
+def instantiate (tpl : List TItem) (args : List Expr) (items : List (List Piece)) : List Piece :=
+  tpl.flatMap (instItem args items)
+
+def tw (s : String) : TItem := .p (w s)
+def to_ (s : String) : TItem := .p (o s)
+def tsp : TItem := .p sp
+def tlp : TItem := .p lp
+def trp : TItem := .p rp
+def tnum (s : String) : TItem := .p (.tok (.num s.toList))
+def tstr (s : String) : TItem := .p (.tok (.str s.toList))
+
+/-- `NAME(a, b, …)` -/
+def tcall (name : String) (args : List (List TItem)) : List TItem :=
+  let rec join : List (List TItem) → List TItem
+    | [] => []
+    | [a] => a
+    | a :: rest => a ++ .p comma :: tsp :: join rest
+  tw name :: tlp :: join args ++ [trp]
+
+/-- how a handler's Python signature constrains the number of arguments -/
+inductive Sig | fixed (n : Nat) | atLeast (n : Nat)
+  deriving DecidableEq, Repr
+
+/-- the `sqlfunc_*` methods and their signatures (`(self, arg)`, `(self)`, `(self, *args)` + highest index used) -/
+def sqlSigs : List (String × Sig) :=
+  [("ceiling", .fixed 1), ("concat", .atLeast 2), ("contains", .atLeast 2), ("date", .fixed 1), ("day", .fixed 1),
+   ("endswith", .atLeast 2), ("floor", .fixed 1), ("hassubset", .atLeast 0), ("hour", .fixed 1), ("indexof", .atLeast 2),
+   ("length", .fixed 1), ("minute", .fixed 1), ("month", .fixed 1), ("now", .fixed 0), ("round", .fixed 1),
+   ("startswith", .atLeast 2), ("substring", .atLeast 1), ("tolower", .fixed 1), ("toupper", .fixed 1), ("trim", .fixed 1),
+   ("year", .fixed 1)]
+
+/-- what happens before any argument is rendered: a Python `TypeError` when the call does not fit the
+    signature (`IndexError` when a `*args` handler indexes past the end); `hassubset` raises at once
+    outside Athena -/
+def preCheck (d : Dialect) (key : String) (n : Nat) : Option (Outcome (List Piece)) :=
+  match sqlSigs.find? (fun e => e.1 == key) with
+  | none => some (.lib (.unsupportedFunction key.toList))
+  | some (_, .fixed k) => if n == k then none else some (.foreign "TypeError")
+  | some (_, .atLeast k) =>
+      if key == "hassubset" && d != .athena then some (.lib (.unsupportedFunction "hassubset".toList))
+      else if key == "hassubset" && n < 2 then some (.foreign "IndexError")
+      else if n < k then some (.foreign "IndexError") else none
+
+def extractTpl (d : Dialect) (part fmt : String) : List TItem :=
+  if d = .sqlite then [tw "CAST", tlp] ++ tcall "STRFTIME" [[tstr fmt], [.arg 0]] ++ [tsp, tw "AS", tsp, tw "INTEGER", trp]
+  else [tw "EXTRACT", tsp, tlp, tw part, tsp, tw "FROM", tsp, .arg 0, trp]
+
+def likeTpl (name : String) (pre suf : Str) (tys : List (Option Ty)) : Outcome (List TItem) :=
+  match overloadOf tys with
+  | .str => .ok [.arg 0, tsp, tw "LIKE", tsp, .pat 1 pre suf]
+  | .list => .lib (.unsupportedFunction (name ++ "<List>").toList)
+  | .bad => .lib (.argumentType name.toList)
+
+/-- the template a handler fills in, chosen from the dialect, the argument count and the inferred types -/
+def selectTpl (d : Dialect) (key : String) (tys : List (Option Ty)) : Outcome (List TItem) :=
+  let n := tys.length
+  let t0 := tys.getD 0 none
+  let plus1 : List TItem := [tsp, to_ "+", tsp, tnum "1"]
+  match key with
+  | "concat" => .ok [.argW 0 5 false, tsp, to_ "||", tsp, .argW 1 5 true]
+  | "contains" => likeTpl "contains" ['%'] ['%'] tys
+  | "endswith" => likeTpl "endswith" ['%'] [] tys
+  | "startswith" => likeTpl "startswith" [] ['%'] tys
+  | "indexof" =>
+      (match overloadOf tys with
+       | .str =>
+           if d = .sqlite then .ok (tcall "INSTR" [[.arg 0], [.arg 1]] ++ [tsp, to_ "-", tsp, tnum "1"])
+           else .ok ([tw "POSITION", tlp, .arg 1, tsp, tw "IN", tsp, .arg 0, trp, tsp, to_ "-", tsp, tnum "1"])
+       | .list => .lib (.unsupportedFunction "indexof<List>".toList)
+       | .bad => .lib (.argumentType "indexof".toList))
+  | "length" =>
+      if d = .sqlite then .ok (tcall "LENGTH" [[.arg 0]])
+      else if tyIsStr t0 || t0 == none then .ok (tcall (if d = .athena then "LENGTH" else "CHAR_LENGTH") [[.arg 0]])
+      else if tyIsList t0 then .ok (tcall "CARDINALITY" [[.arg 0]])
+      else .lib (.argumentType "length".toList)
+  | "substring" =>
+      if (tyIsStr t0 || t0 == none) && n == 2 then
+        if d = .std then .ok ([tw "SUBSTRING", tlp, .arg 0, tsp, tw "FROM", tsp, .arg 1] ++ plus1 ++ [trp])
+        else .ok (tcall "SUBSTR" [[.arg 0], .arg 1 :: plus1])
+      else if (tyIsStr t0 || t0 == none) && n == 3 then
+        if d = .std then
+          .ok ([tw "SUBSTRING", tlp, .arg 0, tsp, tw "FROM", tsp, .arg 1] ++ plus1 ++ [tsp, tw "FOR", tsp, .arg 2, trp])
+        else .ok (tcall "SUBSTR" [[.arg 0], .arg 1 :: plus1, [.arg 2]])
+      else if tyIsList t0 then
+        if d = .athena then
+          if n == 2 then .ok (tcall "SLICE" [[.arg 0], [.arg 1]])
+          else if n == 3 then .ok (tcall "SLICE" [[.arg 0], [.arg 1], [.arg 2]])
+          else .lib (.argumentType "substring".toList)
+        else .lib (.unsupportedFunction "substring<List>".toList)
+      else .lib (.argumentType "substring".toList)
+  | "tolower" => .ok (tcall "LOWER" [[.arg 0]])
+  | "toupper" => .ok (tcall "UPPER" [[.arg 0]])
+  | "trim" => .ok (tcall "TRIM" [[.arg 0]])
+  | "year" => .ok (extractTpl d "YEAR" "%Y")
+  | "month" => .ok (extractTpl d "MONTH" "%m")
+  | "day" => .ok (extractTpl d "DAY" "%d")
+  | "hour" => .ok (extractTpl d "HOUR" "%H")
+  | "minute" => .ok (extractTpl d "MINUTE" "%M")
+  | "date" =>
+      if d = .sqlite then .ok (tcall "DATE" [[.arg 0]])
+      else .ok [tw "CAST", tsp, tlp, .arg 0, tsp, tw "AS", tsp, tw "DATE", trp]
+  | "now" => if d = .sqlite then .ok (tcall "DATETIME" [[tstr "now"]]) else .ok [tw "CURRENT_TIMESTAMP"]
+  | "round" =>
+      (match d with
+       | .std => .ok [tw "CAST", tsp, tlp, .arg 0, tsp, to_ "+", tsp, tnum "0.5", tsp, tw "AS", tsp, tw "INTEGER", trp]
+       | .sqlite => .ok (tcall "TRUNC" [[.arg 0, tsp, to_ "+", tsp, tnum "0.5"]])
+       | .athena => .ok (tcall "ROUND" [[.arg 0]]))
+  | "floor" =>
+      if d = .std then
+        let ind : TItem := .p (.ws "\n    ".toList)
+        .ok ([tw "CASE", tsp, .arg 0,
+              ind, tw "WHEN", tsp, to_ ">", tsp, tnum "0", tsp, tw "CAST", tsp, tlp, .arg 0, tsp, tw "AS", tsp, tw "INTEGER", trp,
+              ind, tw "WHEN", tsp, to_ "<", tsp, tnum "0", tsp, tw "CAST", tsp, tlp, tnum "0", tsp, to_ "-", tsp, tlp, tw "ABS", tlp,
+              .arg 0, trp, tsp, to_ "+", tsp, tnum "0.5", trp, tsp, tw "AS", tsp, tw "INTEGER", trp, trp,
+              ind, tw "ELSE", tsp, .arg 0, .p (.ws ['\n']), tw "END"])
+      else .ok (tcall "FLOOR" [[.arg 0]])
+  | "ceiling" =>
+      if d = .std then
+        let ind : TItem := .p (.ws "\n    ".toList)
+        .ok ([tw "CASE", tsp, .arg 0, tsp, to_ "-", tsp, tw "CAST", tsp, tlp, .arg 0, tsp, tw "AS", tsp, tw "INTEGER", trp,
+              ind, tw "WHEN", tsp, to_ ">", tsp, tnum "0", tsp, .arg 0, to_ "+", tnum "1",
+              ind, tw "WHEN", tsp, to_ "<", tsp, tnum "0", tsp, .arg 0, to_ "-", tnum "1",
+              ind, tw "ELSE", tsp, .arg 0, .p (.ws ['\n']), tw "END"])
+      else .ok (tcall "CEILING" [[.arg 0]])
+  | "hassubset" =>
+      .ok (tcall "CARDINALITY" [tcall "ARRAY_INTERSECT" [[.arg 0], [.arg 1]]] ++ [tsp, to_ "=", tsp] ++ tcall "CARDINALITY" [[.arg 1]])
+  | _ => .lib (.unsupportedFunction key.toList)
+
 section
 variable (isDigit : Char → Bool) (d : Dialect) (alias : Option Str)
 
@@ -283,34 +458,31 @@ def sqlVisit : Expr → Outcome (List Piece)
       let items ← sqlVisitList xs
       pure (parenP (joinComma items))
   | .binop op l r => do
-      let p := sqlPrec (.binop op l r)
       let ls ← sqlVisit l
       let rs ← sqlVisit r
-      pure (wrapOperand l p false ls ++ sp :: o (arithSym op) :: sp :: wrapOperand r p true rs)
+      pure (wrapOperand l (sqlPrec (.binop op l r)) false ls ++ sp :: o (arithSym op) :: sp ::
+            wrapOperand r (sqlPrec (.binop op l r)) true rs)
   | .compare op l r => do
       let ls ← sqlVisit l
       let rs ← sqlVisit r
-      let cmp : List Piece :=
-        if isNullLit r && op == .eq then [w "IS"]
-        else if isNullLit r && op == .ne then [w "IS", sp, w "NOT"]
-        else cmpSym op
-      pure (wrapOperand l 4 true ls ++ sp :: cmp ++ sp :: wrapOperand r 4 true rs)
+      pure (wrapOperand l 4 true ls ++ sp :: cmpPieces op r ++ sp :: wrapOperand r 4 true rs)
   | .boolop op l r => do
       let ls ← sqlVisit l
       let rs ← sqlVisit r
-      let ls' := match isBoolOp l with
-        | some lo => if lo != op then parenP ls else ls
-        | none => ls
-      let rs' := if (isBoolOp r).isSome then parenP rs else rs
-      pure (ls' ++ sp :: w (if op == .and_ then "AND" else "OR") :: sp :: rs')
+      pure (boolWrapL op l ls ++ sp :: w (if op == .and_ then "AND" else "OR") :: sp :: boolWrapR r rs)
   | .unary op e => do
       let es ← sqlVisit e
-      let opP : Piece := if op == .not_ then w "NOT" else o "-"
-      pure (opP :: sp :: wrapOperand e (sqlPrec (.unary op e)) false es)
+      pure ((if op == .not_ then w "NOT" else o "-") :: sp :: wrapOperand e (sqlPrec (.unary op e)) false es)
   | .call f args =>
       let key := String.ofList (pyLower (funcKey f))
       if !sqlHandlers.contains key then .lib (.unsupportedFunction (funcKey f))
-      else sqlFunc key args
+      else
+        match preCheck d key args.length with
+        | some err => err
+        | none => do
+            let items ← sqlVisitList args
+            let tpl ← selectTpl d key (args.toList.map inferType)
+            pure (instantiate tpl args.toList items)
 
 def sqlVisitList : Exprs → Outcome (List (List Piece))
   | .nil => .ok []
@@ -318,151 +490,6 @@ def sqlVisitList : Exprs → Outcome (List (List Piece))
       let hs ← sqlVisit h
       let ts ← sqlVisitList t
       pure (hs :: ts)
-
-/-- `_to_pattern(arg, prefix, suffix)`; `argPs` is the text `self.visit(arg)` already produced -/
-def sqlPattern (arg : Expr) (argPs : List Piece) (pre suf : Str) : List Piece :=
-  match arg with
-  | .lit .str raw =>
-      let esc := likeEscape raw
-      let lit : Piece := .tok (.str (pre ++ esc ++ suf))
-      if esc != raw then [lit, sp, w "ESCAPE", sp, .tok (.str ['\\'])] else [lit]
-  | _ =>
-      let res := wrapOperand arg 5 true argPs
-      let res := if pre.isEmpty then res else .tok (.str pre) :: sp :: o "||" :: sp :: res
-      if suf.isEmpty then res else res ++ [sp, o "||", sp, .tok (.str suf)]
-
-/-- the `sqlfunc_*` handler selected by `key`, called as `handler(*args)` -/
-def sqlFunc (key : String) (args : Exprs) : Outcome (List Piece) :=
-  let fixed1 (k : List Piece → Expr → Outcome (List Piece)) : Outcome (List Piece) :=
-    match args with
-    | .cons a .nil => do
-        let as ← sqlVisit a
-        k as a
-    | _ => .foreign "TypeError"
-  let extract (part : String) (fmt : String) : Outcome (List Piece) :=
-    fixed1 (fun as _ =>
-      if d = .sqlite then
-        .ok (w "CAST" :: lp :: (callP "STRFTIME" [[.tok (.str fmt.toList)], as] ++ [sp, w "AS", sp, w "INTEGER", rp]))
-      else .ok ([w "EXTRACT", sp, lp, w part, sp, w "FROM", sp] ++ as ++ [rp]))
-  let likeFn (name : String) (pre suf : Str) : Outcome (List Piece) := do
-    let items ← sqlVisitList args
-    match args, items with
-    | .cons a0 (.cons a1 _), i0 :: i1 :: _ =>
-        match overloadOf (args.toList.map inferType) with
-        | .str => let _ := a0; pure (i0 ++ sp :: w "LIKE" :: sp :: sqlPattern a1 i1 pre suf)
-        | .list => .lib (.unsupportedFunction (name ++ "<List>").toList)
-        | .bad => .lib (.argumentType name.toList)
-    | _, _ => .foreign "IndexError"
-  match key with
-  | "concat" =>
-      match args with
-      | .cons a0 (.cons a1 _) => do
-          let l ← sqlVisit a0
-          let r ← sqlVisit a1
-          pure (wrapOperand a0 5 false l ++ sp :: o "||" :: sp :: wrapOperand a1 5 true r)
-      | _ => .foreign "IndexError"
-  | "contains" => likeFn "contains" ['%'] ['%']
-  | "endswith" => likeFn "endswith" ['%'] []
-  | "startswith" => likeFn "startswith" [] ['%']
-  | "indexof" => do
-      let items ← sqlVisitList args
-      match overloadOf (args.toList.map inferType) with
-      | .str =>
-          (match items with
-           | i0 :: i1 :: _ =>
-               if d = .sqlite then pure (callP "INSTR" [i0, i1] ++ [sp, o "-", sp, .tok (.num ['1'])])
-               else pure ([w "POSITION", lp] ++ i1 ++ [sp, w "IN", sp] ++ i0 ++ [rp, sp, o "-", sp, .tok (.num ['1'])])
-           | _ => .foreign "IndexError")
-      | .list => .lib (.unsupportedFunction "indexof<List>".toList)
-      | .bad => .lib (.argumentType "indexof".toList)
-  | "length" =>
-      fixed1 (fun as a =>
-        if d = .sqlite then .ok (callP "LENGTH" [as])
-        else
-          let t := inferType a
-          if tyIsStr t || t == none then .ok (callP (if d = .athena then "LENGTH" else "CHAR_LENGTH") [as])
-          else if tyIsList t then .ok (callP "CARDINALITY" [as])
-          else .lib (.argumentType "length".toList))
-  | "substring" => do
-      let items ← sqlVisitList args
-      match args, items with
-      | .cons a0 _, i0 :: rest =>
-          let t := inferType a0
-          let one : List Piece := [sp, o "+", sp, .tok (.num ['1'])]
-          let strCase : Option (List Piece) :=
-            if tyIsStr t || t == none then
-              match rest with
-              | [i1] =>
-                  if d = .std then some ([w "SUBSTRING", lp] ++ i0 ++ [sp, w "FROM", sp] ++ i1 ++ one ++ [rp])
-                  else some (callP "SUBSTR" [i0, i1 ++ one])
-              | [i1, i2] =>
-                  if d = .std then
-                    some ([w "SUBSTRING", lp] ++ i0 ++ [sp, w "FROM", sp] ++ i1 ++ one ++ [sp, w "FOR", sp] ++ i2 ++ [rp])
-                  else some (callP "SUBSTR" [i0, i1 ++ one, i2])
-              | _ => none
-            else none
-          match strCase with
-          | some ps => pure ps
-          | none =>
-              if tyIsList t then
-                if d = .athena then
-                  match rest with
-                  | [i1] => pure (callP "SLICE" [i0, i1])
-                  | [i1, i2] => pure (callP "SLICE" [i0, i1, i2])
-                  | _ => .lib (.argumentType "substring".toList)
-                else .lib (.unsupportedFunction "substring<List>".toList)
-              else .lib (.argumentType "substring".toList)
-      | _, _ => .foreign "IndexError"
-  | "tolower" => fixed1 (fun as _ => .ok (callP "LOWER" [as]))
-  | "toupper" => fixed1 (fun as _ => .ok (callP "UPPER" [as]))
-  | "trim" => fixed1 (fun as _ => .ok (callP "TRIM" [as]))
-  | "year" => extract "YEAR" "%Y"
-  | "month" => extract "MONTH" "%m"
-  | "day" => extract "DAY" "%d"
-  | "hour" => extract "HOUR" "%H"
-  | "minute" => extract "MINUTE" "%M"
-  | "date" =>
-      fixed1 (fun as _ =>
-        if d = .sqlite then .ok (callP "DATE" [as])
-        else .ok ([w "CAST", sp, lp] ++ as ++ [sp, w "AS", sp, w "DATE", rp]))
-  | "now" =>
-      match args with
-      | .nil => if d = .sqlite then .ok (callP "DATETIME" [[.tok (.str "now".toList)]]) else .ok [w "CURRENT_TIMESTAMP"]
-      | _ => .foreign "TypeError"
-  | "round" =>
-      fixed1 (fun as _ =>
-        match d with
-        | .std => .ok ([w "CAST", sp, lp] ++ as ++ [sp, o "+", sp, .tok (.num "0.5".toList), sp, w "AS", sp, w "INTEGER", rp])
-        | .sqlite => .ok (callP "TRUNC" [as ++ [sp, o "+", sp, .tok (.num "0.5".toList)]])
-        | .athena => .ok (callP "ROUND" [as]))
-  | "floor" =>
-      fixed1 (fun as _ =>
-        if d = .std then
-          let ind : Piece := .ws "\n    ".toList
-          .ok ([w "CASE", sp] ++ as ++
-               [ind, w "WHEN", sp, o ">", sp, .tok (.num ['0']), sp, w "CAST", sp, lp] ++ as ++ [sp, w "AS", sp, w "INTEGER", rp] ++
-               [ind, w "WHEN", sp, o "<", sp, .tok (.num ['0']), sp, w "CAST", sp, lp, .tok (.num ['0']), sp, o "-", sp, lp, w "ABS", lp] ++ as ++
-               [rp, sp, o "+", sp, .tok (.num "0.5".toList), rp, sp, w "AS", sp, w "INTEGER", rp, rp] ++
-               [ind, w "ELSE", sp] ++ as ++ [.ws ['\n'], w "END"])
-        else .ok (callP "FLOOR" [as]))
-  | "ceiling" =>
-      fixed1 (fun as _ =>
-        if d = .std then
-          let ind : Piece := .ws "\n    ".toList
-          .ok ([w "CASE", sp] ++ as ++ [sp, o "-", sp, w "CAST", sp, lp] ++ as ++ [sp, w "AS", sp, w "INTEGER", rp] ++
-               [ind, w "WHEN", sp, o ">", sp, .tok (.num ['0']), sp] ++ as ++ [o "+", .tok (.num ['1'])] ++
-               [ind, w "WHEN", sp, o "<", sp, .tok (.num ['0']), sp] ++ as ++ [o "-", .tok (.num ['1'])] ++
-               [ind, w "ELSE", sp] ++ as ++ [.ws ['\n'], w "END"])
-        else .ok (callP "CEILING" [as]))
-  | "hassubset" =>
-      if d = .athena then do
-        let items ← sqlVisitList args
-        match items with
-        | i0 :: i1 :: _ =>
-            pure (callP "CARDINALITY" [callP "ARRAY_INTERSECT" [i0, i1]] ++ [sp, o "=", sp] ++ callP "CARDINALITY" [i1])
-        | _ => .foreign "IndexError"
-      else .lib (.unsupportedFunction "hassubset".toList)
-  | _ => .lib (.unsupportedFunction key.toList)
 end
 
 /-- the text the visitor returns -/
